@@ -151,7 +151,9 @@ func (bav3pr builtAsciiVector2PropertyReader) Read(buf []string, i int64) error 
 
 	v := vector2.New(xParsed, yParsed)
 	if bav3pr.scalarType == UChar {
-		v = v.DivByConstant(255.)
+		// vector2's DivByConstant scales by the reciprocal, which is one ulp
+		// off value/255 for some bytes (the other readers divide)
+		v = vector2.New(xParsed/255., yParsed/255.)
 	}
 
 	bav3pr.arr[i] = v
@@ -190,10 +192,12 @@ func (bv2pr *builtVector2PropertyReader) Read(buf []byte, i int64) {
 	var v vector2.Float64
 	switch bv2pr.scalarType {
 	case UChar:
+		// divide: vector2's DivByConstant scales by the reciprocal, which is
+		// one ulp off value/255 for some bytes (the other readers divide)
 		v = vector2.New(
-			float64(buf[bv2pr.xOffset]),
-			float64(buf[bv2pr.yOffset]),
-		).DivByConstant(255)
+			float64(buf[bv2pr.xOffset])/255.,
+			float64(buf[bv2pr.yOffset])/255.,
+		)
 
 	case Int:
 		v = vector2.New(
